@@ -1,7 +1,7 @@
 (* State/ProofsCommit.v — the staged accounts trie holds normalise (abs s), and a state re-opened on the
    committed root reads it back: reopen_reads_back (full) and the content form of stage_root_canonical. *)
 From Coq Require Import List NArith Bool Arith Lia.
-From Verif Require Import Trie.Model Trie.Keys Trie.ProofsWf Trie.Theorems.
+From Verif Require Import Trie.Model Trie.Keys Trie.ProofsWf Trie.Theorems Trie.ProofsProj.
 From Verif Require Import State.StackedMap State.ProofsSM State.Model State.ProofsState State.ProofsJournal State.ProofsReplay State.ProofsStage.
 Import ListNotations.
 Open Scope N_scope.
@@ -183,6 +183,45 @@ Section CM.
       rewrite (get_update sleaf never never_sound') by auto.
       destruct (vkey_eq_dec (hs k0) (hs k)) as [Q|]; auto.
       apply hs_inj in Q. subst. rewrite N.eqb_refl in E. discriminate.
+  Qed.
+
+  (* ---- tries hold secure keys only, storage tries no empty value ---- *)
+  Definition stor_keys_ok (t : strie) : Prop :=
+    forall k v m, vkey k -> trie_get sleaf t k = Some (v, m) -> (exists j, k = hs j) /\ v <> [].
+  Definition secure_base (base : atrie) : Prop :=
+    (forall k l, vkey k -> trie_get aleaf base k = Some l -> exists a, k = hk a) /\
+    (forall a acc m t, trie_get aleaf base (hk a) = Some (acc, m) -> a_sroot acc = Some t -> stor_keys_ok t).
+
+  Lemma stor_keys_ok_nil : stor_keys_ok Nil.
+  Proof. intros k v m _ H. destruct k; cbn in H; discriminate. Qed.
+
+  Lemma trie_get_nil {A} k : trie_get A Nil k = None.
+  Proof. reflexivity. Qed.
+
+  Lemma secure_base_nil : secure_base Nil.
+  Proof. split; intros; rewrite trie_get_nil in *; discriminate. Qed.
+
+  Lemma save_storage_keys_ok m : forall t, wfc sleaf t -> stor_keys_ok t -> stor_keys_ok (save_storage hs trimkey t m).
+  Proof.
+    induction m as [|[k0 v0] m IH]; cbn [save_storage]; intros t Ht Hok; auto.
+    apply IH; [apply update_wf_root; auto|].
+    intros k v mm Hk H.
+    rewrite (get_update sleaf never never_sound') in H by auto.
+    destruct (vkey_eq_dec (hs k0) k) as [E|E].
+    - destruct v0; [discriminate|]. inversion H; subst. split; [eexists; reflexivity|discriminate].
+    - eapply Hok; eauto.
+  Qed.
+
+  Lemma fold_stage_get_other major minor chs : forall t k,
+    wfc aleaf t -> vkey k -> (forall c, In c chs -> hk (c_addr c) <> k) ->
+    trie_get aleaf (fold_left (stage_account hk hs trimkey major minor) chs t) k = trie_get aleaf t k.
+  Proof.
+    induction chs as [|c chs IH]; cbn [fold_left]; intros t k Ht Hk Hne; auto.
+    rewrite IH; auto.
+    - rewrite stage_account_eq. rewrite (get_update aleaf never never_sound') by auto.
+      destruct (vkey_eq_dec (hk (c_addr c)) k) as [E|E]; auto. exfalso. apply (Hne c); auto. left; auto.
+    - apply stage_account_wf; auto.
+    - intros c' I. apply Hne. right; auto.
   Qed.
 
   (* ---- the base a state is opened on ---- *)
@@ -377,6 +416,114 @@ Section CM.
       - intros a acc m t Q Ht. destruct (K a acc m Q) as [_ K2]. auto.
       - intros a acc m Q. destruct (K a acc m Q) as [K1 _]. auto.
     Qed.
+
+    (* the explicit storage root (state.go Stage: `if len(c.storage) > 0 { … c.data.StorageRoot = sTrie.Hash() }`):
+       for an account that is not empty at Stage, the committed leaf names a storage trie
+       - whenever a storage slot of the account was written in this block under its current barrier (even if every
+         written value is empty, in which case the named trie may be the empty one), and
+       - otherwise exactly when the account record named one already (the root is carried over unchanged);
+       and a named storage trie is well formed and holds exactly the account's storage as the state reads it. *)
+    Definition stor_written (a : N) : Prop := exists k r, jraw J a k = Some r.
+
+    Theorem staged_sroot_lemma a :
+      let x := get_account hk hs s a in
+      let y := get_account hk hs s' a in
+      is_empty x = false ->
+      (stor_written a -> exists st, a_sroot y = Some st) /\
+      (~ stor_written a -> a_sroot y = a_sroot x) /\
+      (forall st, a_sroot y = Some st ->
+         wfc sleaf st /\ forall k, raw_of (trie_get sleaf st (hs k)) = get_raw_storage hk hs s a k).
+    Proof.
+      intros x y Hx.
+      destruct (getters_view hk hs s (proj1 Hsi) a) as [Gx [_ [_ Gs]]]. fold g L in Gx, Gs.
+      assert (Ey : y = match trie_get aleaf (stage hk hs trimkey s major minor) (hk a) with
+                       | Some (acc, _) => acc | None => empty_account end) by apply reopen_reads.
+      destruct (reopen_reads_back_lemma a) as [_ RB]. fold x y in RB. destruct (RB Hx) as [SF RS']. clear RB.
+      assert (Hy : get_account hk hs s' a = y) by reflexivity.
+      clearbody y.
+      split; [|split].
+      - (* written: a storage trie is named *)
+        intros [k [r Hw]].
+        destruct (rp_shape s major minor J) as [ND SN]. fold chs in ND, SN.
+        rewrite stage_is_fold in Ey. rewrite fold_stage_get in Ey by (auto; apply Hbase).
+        pose proof (replay_spec hk s major minor J JOJ a) as RS. fold chs in RS.
+        destruct (ch_find a chs) as [c|] eqn:F.
+        + destruct RS as [Cd Cs]. rewrite c_acc in Cd. rewrite <- Gx in Cd. fold x in Cd.
+          unfold staged_leaf, staged_data in Ey. rewrite Cd, Hx in Ey. cbn [negb] in Ey.
+          specialize (Cs k). rewrite Hw in Cs.
+          destruct (c_storage c) as [[|p m]|]; cbn in Cs; try discriminate.
+          rewrite is_empty_sroot, Hx in Ey. subst y. eexists. reflexivity.
+        + destruct RS as [_ [_ C]]. unfold jraw in Hw. rewrite C in Hw. discriminate.
+      - (* not written: carried over *)
+        intros Hn.
+        destruct (rp_shape s major minor J) as [ND SN]. fold chs in ND, SN.
+        rewrite stage_is_fold in Ey. rewrite fold_stage_get in Ey by (auto; apply Hbase).
+        pose proof (replay_spec hk s major minor J JOJ a) as RS. fold chs in RS.
+        destruct (ch_find a chs) as [c|] eqn:F.
+        + destruct RS as [Cd Cs]. rewrite c_acc in Cd. rewrite <- Gx in Cd. fold x in Cd.
+          unfold staged_leaf, staged_data in Ey. rewrite Cd, Hx in Ey. cbn [negb] in Ey.
+          destruct (c_storage c) as [[|[k0 v0] m]|] eqn:Sc.
+          * rewrite Hx in Ey. subst y. reflexivity.
+          * exfalso. apply Hn. exists k0, v0. rewrite <- (Cs k0). cbn. rewrite N.eqb_refl. reflexivity.
+          * rewrite Hx in Ey. subst y. reflexivity.
+        + destruct RS as [A _].
+          assert (Xb : x = base_acc hk s a).
+          { unfold x. rewrite Gx, <- c_acc. unfold jacc. rewrite A. reflexivity. }
+          rewrite Ey, Xb. unfold base_acc, load_account.
+          destruct (trie_get aleaf (st_base s) (hk a)) as [[acc [m|]]|]; reflexivity.
+      - (* a named trie holds the storage *)
+        intros st Hst. split.
+        + destruct (trie_get aleaf (stage hk hs trimkey s major minor) (hk a)) as [[acc m]|] eqn:Q.
+          * subst y. destruct stage_base_ok as [_ [W _]]. eapply W; eauto.
+          * subst y. discriminate.
+        + intros k. rewrite <- RS'. rewrite reopen_raw, Hy. unfold base_storage. rewrite Hst. reflexivity.
+    Qed.
+
+    (* Stage keeps the key hygiene: the staged trie holds secure keys only, its storage tries hold secure keys and no
+       empty value — so the premise `secure_base` is inductive over chains of blocks, like base_ok *)
+    Hypothesis Hsec : secure_base (st_base s).
+
+    Lemma base_strie_keys_ok c a : c_data c = vacc g L a -> stor_keys_ok (base_strie c).
+    Proof.
+      intros E. unfold base_strie. rewrite E, sr_top.
+      destruct (vbar g L a =? 0); [|apply stor_keys_ok_nil].
+      unfold base_acc, load_account.
+      destruct (trie_get aleaf (st_base s) (hk a)) as [[acc [m|]]|] eqn:Q; cbn [fst].
+      - destruct (a_sroot acc) eqn:R; [|apply stor_keys_ok_nil]. destruct Hsec as [_ W]. eapply W; eauto.
+      - destruct (a_sroot acc) eqn:R; [|apply stor_keys_ok_nil]. destruct Hsec as [_ W]. eapply W; eauto.
+      - apply stor_keys_ok_nil.
+    Qed.
+
+    Theorem stage_secure : secure_base (stage hk hs trimkey s major minor).
+    Proof.
+      destruct (rp_shape s major minor J) as [ND SN]. fold chs in ND, SN.
+      split.
+      - intros k l Hk Q. rewrite stage_is_fold in Q. fold chs in Q.
+        destruct (in_dec (list_eq_dec Nat.eq_dec) k (map (fun c => hk (c_addr c)) chs)) as [I|I].
+        + apply in_map_iff in I. destruct I as [c [E _]]. eexists. symmetry. exact E.
+        + rewrite fold_stage_get_other in Q; auto; [|apply Hbase|].
+          * destruct Hsec as [S1 _]. eapply S1; eauto.
+          * intros c Ic E. apply I. apply in_map_iff. exists c. auto.
+      - intros a acc m t Q Ht.
+        rewrite stage_is_fold in Q. fold chs in Q. rewrite fold_stage_get in Q by (auto; apply Hbase).
+        pose proof (replay_spec hk s major minor J JOJ a) as RS. fold chs in RS.
+        destruct (ch_find a chs) as [c|] eqn:F.
+        + destruct RS as [Cd Cs]. rewrite c_acc in Cd.
+          unfold staged_leaf in Q. destruct (staged_data major minor c) as [data meta] eqn:SD.
+          destruct (is_empty data) eqn:Ed; [discriminate|]. inversion Q; subst acc m.
+          unfold staged_data in SD.
+          assert (Old : forall t0, a_sroot (c_data c) = Some t0 -> stor_keys_ok t0).
+          { intros t0 H0. pose proof (base_strie_keys_ok c a Cd) as Wb. unfold base_strie in Wb. rewrite H0 in Wb. exact Wb. }
+          destruct (negb (is_empty (c_data c))).
+          * cbv zeta in SD. destruct (c_storage c) as [[|p m']|].
+            -- inversion SD; subst data; auto.
+            -- remember (save_storage hs trimkey (base_strie c) (p :: m')) as st eqn:Est.
+               inversion SD; subst data. cbn [a_sroot] in Ht. inversion Ht; subst t. rewrite Est.
+               apply save_storage_keys_ok; [apply (base_strie_wf c a Cd)|apply (base_strie_keys_ok c a Cd)].
+            -- inversion SD; subst data; auto.
+          * inversion SD; subst data; auto.
+        + destruct Hsec as [_ S2]. eapply S2; eauto.
+    Qed.
   End Final.
 
   (* every state reached from a legal base by state operations satisfies the invariants used above *)
@@ -402,5 +549,106 @@ Section CM.
       destruct IH as [B [C D]].
       split; [apply SJ_sstep; auto|split; [apply SRall_sstep; auto|]].
       destruct (base_sstep hk hs s o) as [E _]. rewrite E. auto.
+  Qed.
+
+  Lemma same_fields_empty y x : same_fields y x -> is_empty y = is_empty x.
+  Proof. intros [A [B [_ [C D]]]]. unfold is_empty. rewrite A, B, C, D. reflexivity. Qed.
+
+  (* state_root_depends_only_on_content: two histories of state operations on the same legal, secure base (the parent
+     block's state) that end with the same logical content — for every address the same account fields and the same
+     value in every storage slot — and whose committed leaves name a storage trie for the same addresses (by
+     staged_sroot_lemma: storage written in the block, or a root carried over) commit to the same consensus view of the
+     accounts trie, hence to the same state root: whatever the order of the operations, whatever was overwritten,
+     reverted or deleted and re-created on the way, and whatever the versions.  (The StorageIDs and versions, which do
+     depend on the order and on the version, are metadata.) *)
+  Theorem state_root_content_lemma base codes ops1 ops2 ma1 mi1 ma2 mi2 :
+    base_ok base -> secure_base base -> Forall state_op ops1 -> Forall state_op ops2 ->
+    let s1 := run_state hk hs ops1 (open base codes) in
+    let s2 := run_state hk hs ops2 (open base codes) in
+    (forall a, same_fields (get_account hk hs s1 a) (get_account hk hs s2 a) /\
+               (forall k, get_raw_storage hk hs s1 a k = get_raw_storage hk hs s2 a k) /\
+               (a_sroot (get_account hk hs (commit_reopen hk hs trimkey s1 ma1 mi1) a) = None <->
+                a_sroot (get_account hk hs (commit_reopen hk hs trimkey s2 ma2 mi2) a) = None)) ->
+    cview (stage hk hs trimkey s1 ma1 mi1) = cview (stage hk hs trimkey s2 ma2 mi2).
+  Proof.
+    intros Hb Hsec H1 H2 s1 s2 Hc.
+    destruct (reachable_invs base codes ops1 H1) as [A1 [B1 [C1 D1]]]. fold s1 in A1, B1, C1, D1.
+    destruct (reachable_invs base codes ops2 H2) as [A2 [B2 [C2 D2]]]. fold s2 in A2, B2, C2, D2.
+    assert (Hb1 : base_ok (st_base s1)) by (rewrite D1; auto).
+    assert (Hb2 : base_ok (st_base s2)) by (rewrite D2; auto).
+    assert (Hs1 : secure_base (st_base s1)) by (rewrite D1; auto).
+    assert (Hs2 : secure_base (st_base s2)) by (rewrite D2; auto).
+    set (T1 := stage hk hs trimkey s1 ma1 mi1). set (T2 := stage hk hs trimkey s2 ma2 mi2).
+    pose proof (stage_base_ok s1 ma1 mi1 A1 B1 C1 Hb1) as [W1 [SW1 NE1]]. fold T1 in W1, SW1, NE1.
+    pose proof (stage_base_ok s2 ma2 mi2 A2 B2 C2 Hb2) as [W2 [SW2 NE2]]. fold T2 in W2, SW2, NE2.
+    pose proof (stage_secure s1 ma1 mi1 A1 B1 C1 Hb1 Hs1) as [K1 SK1]. fold T1 in K1, SK1.
+    pose proof (stage_secure s2 ma2 mi2 A2 B2 C2 Hb2 Hs2) as [K2 SK2]. fold T2 in K2, SK2.
+    (* what the re-opened states read at an address, in terms of the staged leaves *)
+    assert (Y1 : forall a, get_account hk hs (commit_reopen hk hs trimkey s1 ma1 mi1) a =
+                           match trie_get aleaf T1 (hk a) with Some (acc, _) => acc | None => empty_account end) by (intros; apply reopen_reads).
+    assert (Y2 : forall a, get_account hk hs (commit_reopen hk hs trimkey s2 ma2 mi2) a =
+                           match trie_get aleaf T2 (hk a) with Some (acc, _) => acc | None => empty_account end) by (intros; apply reopen_reads).
+    (* a stored leaf is a non-empty account with the fields of the state *)
+    assert (F1 : forall a acc m, trie_get aleaf T1 (hk a) = Some (acc, m) ->
+                 is_empty (get_account hk hs s1 a) = false /\ same_fields acc (get_account hk hs s1 a) /\
+                 forall k, base_storage hs acc k = get_raw_storage hk hs s1 a k).
+    { intros a acc m Q. pose proof (reopen_reads_back_lemma s1 ma1 mi1 A1 B1 C1 Hb1 a) as [RE RN]. cbv zeta in RE, RN.
+      rewrite (Y1 a), Q in RE, RN. pose proof (NE1 a acc m Q) as Ne.
+      destruct (is_empty (get_account hk hs s1 a)) eqn:E.
+      - destruct (RE eq_refl) as [X _]. subst acc. discriminate.
+      - destruct (RN eq_refl) as [SF RS]. split; auto. split; auto.
+        intros k. rewrite <- RS. rewrite reopen_raw, (Y1 a), Q. reflexivity. }
+    assert (F2 : forall a acc m, trie_get aleaf T2 (hk a) = Some (acc, m) ->
+                 is_empty (get_account hk hs s2 a) = false /\ same_fields acc (get_account hk hs s2 a) /\
+                 forall k, base_storage hs acc k = get_raw_storage hk hs s2 a k).
+    { intros a acc m Q. pose proof (reopen_reads_back_lemma s2 ma2 mi2 A2 B2 C2 Hb2 a) as [RE RN]. cbv zeta in RE, RN.
+      rewrite (Y2 a), Q in RE, RN. pose proof (NE2 a acc m Q) as Ne.
+      destruct (is_empty (get_account hk hs s2 a)) eqn:E.
+      - destruct (RE eq_refl) as [X _]. subst acc. discriminate.
+      - destruct (RN eq_refl) as [SF RS]. split; auto. split; auto.
+        intros k. rewrite <- RS. rewrite reopen_raw, (Y2 a), Q. reflexivity. }
+    (* an absent leaf is an empty account *)
+    assert (G1 : forall a, trie_get aleaf T1 (hk a) = None -> is_empty (get_account hk hs s1 a) = true).
+    { intros a Q. pose proof (reopen_reads_back_lemma s1 ma1 mi1 A1 B1 C1 Hb1 a) as [_ RN]. cbv zeta in RN.
+      rewrite (Y1 a), Q in RN. destruct (is_empty (get_account hk hs s1 a)) eqn:E; auto.
+      destruct (RN eq_refl) as [SF _]. apply same_fields_empty in SF. rewrite E in SF. discriminate. }
+    assert (G2 : forall a, trie_get aleaf T2 (hk a) = None -> is_empty (get_account hk hs s2 a) = true).
+    { intros a Q. pose proof (reopen_reads_back_lemma s2 ma2 mi2 A2 B2 C2 Hb2 a) as [_ RN]. cbv zeta in RN.
+      rewrite (Y2 a), Q in RN. destruct (is_empty (get_account hk hs s2 a)) eqn:E; auto.
+      destruct (RN eq_refl) as [SF _]. apply same_fields_empty in SF. rewrite E in SF. discriminate. }
+    unfold cview. apply (Trie.ProofsProj.canonical_projection aleaf caccount cview_leaf T1 T2 W1 W2).
+    intros k Hk.
+    destruct (trie_get aleaf T1 k) as [[acc1 m1]|] eqn:Q1; destruct (trie_get aleaf T2 k) as [[acc2 m2]|] eqn:Q2; cbn [option_map]; auto.
+    - (* both stored: same fields, same storage view *)
+      destruct (K1 k _ Hk Q1) as [a Ea]. subst k.
+      destruct (F1 a acc1 m1 Q1) as [_ [SF1 RS1]]. destruct (F2 a acc2 m2 Q2) as [_ [SF2 RS2]].
+      destruct (Hc a) as [SF [RS NS]]. rewrite (Y1 a), Q1, (Y2 a), Q2 in NS.
+      destruct SF1 as [a1 [a2 [a3 [a4 a5]]]]. destruct SF2 as [b1 [b2 [b3 [b4 b5]]]]. destruct SF as [c1 [c2 [c3 [c4 c5]]]].
+      f_equal. unfold cview_leaf. cbn [fst].
+      rewrite a1, a2, a3, a4, a5, b1, b2, b3, b4, b5, c1, c2, c3, c4, c5. f_equal.
+      destruct (a_sroot acc1) as [st1|] eqn:R1; destruct (a_sroot acc2) as [st2|] eqn:R2; cbn [option_map]; auto.
+      + f_equal. unfold cview_storage.
+        apply (Trie.ProofsProj.canonical_projection sleaf bytes (fun l : sleaf => fst l) st1 st2); [eapply SW1; eauto|eapply SW2; eauto|].
+        intros k' Hk'.
+        pose proof (SK1 a acc1 m1 st1 Q1 R1) as O1. pose proof (SK2 a acc2 m2 st2 Q2 R2) as O2.
+        destruct (trie_get sleaf st1 k') as [[v1 n1]|] eqn:E1; destruct (trie_get sleaf st2 k') as [[v2 n2]|] eqn:E2; cbn [option_map fst]; auto.
+        * destruct (O1 k' v1 n1 Hk' E1) as [[j Ej] _]. subst k'.
+          f_equal. pose proof (RS1 j) as X1. pose proof (RS2 j) as X2. unfold base_storage in X1, X2.
+          rewrite R1, E1 in X1. rewrite R2, E2 in X2. rewrite X1, X2. apply RS.
+        * exfalso. destruct (O1 k' v1 n1 Hk' E1) as [[j Ej] Nv]. subst k'.
+          pose proof (RS1 j) as X1. pose proof (RS2 j) as X2. unfold base_storage in X1, X2.
+          rewrite R1, E1 in X1. rewrite R2, E2 in X2. apply Nv. rewrite X1, (RS j), <- X2. reflexivity.
+        * exfalso. destruct (O2 k' v2 n2 Hk' E2) as [[j Ej] Nv]. subst k'.
+          pose proof (RS1 j) as X1. pose proof (RS2 j) as X2. unfold base_storage in X1, X2.
+          rewrite R1, E1 in X1. rewrite R2, E2 in X2. apply Nv. rewrite X2, <- (RS j), <- X1. reflexivity.
+      + exfalso. destruct NS as [_ NS]. specialize (NS eq_refl). discriminate.
+      + exfalso. destruct NS as [NS _]. specialize (NS eq_refl). discriminate.
+    - (* stored on one side only: the emptiness of the account differs *)
+      exfalso. destruct (K1 k _ Hk Q1) as [a Ea]. subst k.
+      destruct (F1 a acc1 m1 Q1) as [E1 _]. pose proof (G2 a Q2) as E2.
+      destruct (Hc a) as [SF _]. apply same_fields_empty in SF. congruence.
+    - exfalso. destruct (K2 k _ Hk Q2) as [a Ea]. subst k.
+      destruct (F2 a acc2 m2 Q2) as [E2 _]. pose proof (G1 a Q1) as E1.
+      destruct (Hc a) as [SF _]. apply same_fields_empty in SF. congruence.
   Qed.
 End CM.
